@@ -33,6 +33,22 @@ def load_findings():
     return data.get("findings", [])
 
 
+def _replay_child(arg):
+    prop, data = arg
+    mod = importlib.import_module(f"checks.{prop.lower()}")
+    return [x.signature for x in mod.replay(data)]
+
+
+def _replay_isolated(prop, data):
+    import multiprocessing
+
+    ctx = multiprocessing.get_context("fork")
+    sys.stdout.flush()
+    sys.stderr.flush()
+    with ctx.Pool(1) as pool:
+        return pool.apply(_replay_child, ((prop, data),))
+
+
 def match_finding(findings, prop, signature):
     for f in findings:
         if f["property"] == prop and re.fullmatch(f["match"], signature):
@@ -160,20 +176,20 @@ def main(argv=None):
         for sig in unlisted:
             print(f"  [class] {sig} :: {res.violations[sig][0].message[:240]!r}")
     os.makedirs(os.path.join(HERE, "replays"), exist_ok=True)
+    unreproduced = []
     for n, sig in enumerate(unlisted[:8]):
         v = res.violations[sig][0]
-        # determinism gate: the recorded case must fail identically twice without the explorer
+        # determinism gate: the recorded case must fail identically twice without the explorer, each time in a fresh child process (so
+        # that state which the code under test keeps per process cannot leak from one replay into the next)
         try:
-            r1 = [x.signature for x in mod.replay(v.replay)]
-            r2 = [x.signature for x in mod.replay(v.replay)]
+            r1 = _replay_isolated(prop, v.replay)
+            r2 = _replay_isolated(prop, v.replay)
         except Exception:
             traceback.print_exc()
             print(f"HARNESS-ERROR property={prop} replay of {sig} crashed")
             return 2
         if r1 != r2 or sig not in r1:
-            print(f"HARNESS-NONDETERMINISM property={prop} signature={sig} first={r1} second={r2}")
-            print(f"  message: {v.message}")
-            rc = max(rc, 2)
+            unreproduced.append((sig, r1, r2, v.message))
             continue
         path = os.path.join(HERE, "replays", f"{prop}-{n}.json")
         with open(path, "w") as f:
@@ -181,7 +197,17 @@ def main(argv=None):
             f.write("\n")
         print(f"  {sig}: {v.message}")
         print(f"VIOLATION property={prop} replay={path}")
-        rc = max(rc, 1) if rc != 2 else 2
+        rc = max(rc, 1)
+    for sig, r1, r2, msg in unreproduced:
+        if rc == 1:
+            # other violations of this run replay identically: this one depends on what the process did before (state kept by the code
+            # under test across calls); reported for information, the verdict rests on the reproduced ones
+            print(f"  UNREPRODUCED-IN-ISOLATION {sig}: {msg[:300]}")
+        else:
+            print(f"HARNESS-NONDETERMINISM property={prop} signature={sig} first={r1} second={r2}")
+            print(f"  message: {msg}")
+    if unreproduced and rc == 0:
+        rc = 2
     if len(unlisted) > 8:
         print(f"  (+{len(unlisted) - 8} further violation classes not written out)")
 
